@@ -345,7 +345,7 @@ func (st *Runtime) executeYieldBlock(block *BlockNode, blockParam, yieldParam *B
 			p := &yieldParam.List[i]
 
 			if p.Expression == nil {
-				block.errorf("missing name for block parameter '%s'", blockParam.List[i].Identifier)
+				block.errorf("missing value for block parameter '%s'", p.Identifier)
 			}
 
 			st.variables[p.Identifier] = st.evalPrimaryExpressionGroup(p.Expression)
@@ -551,6 +551,12 @@ func (st *Runtime) executeList(list *ListNode) (returnValue reflect.Value) {
 				block, has := st.getBlock(node.Name)
 				if has == false || block == nil {
 					node.errorf("unresolved block %q!!", node.Name)
+				}
+				for i := range node.Parameters.List {
+					if p := &node.Parameters.List[i]; p.Expression == nil {
+						// report it where the yield is, not where the block is defined
+						node.errorf("missing value for block parameter %q in yield of block %q", p.Identifier, node.Name)
+					}
 				}
 				st.executeYieldBlock(block, block.Parameters, node.Parameters, node.Expression, node.Content)
 			}
